@@ -254,6 +254,11 @@ def with_refs(doc, rng):
             rs = op.get("responses")
             if isinstance(rs, dict) and rng.random() < 0.3:
                 rs["default"] = {"$ref": "#/x-fragments/answer"}
+            # media types that are the same type in two spellings: two different strings, as far as the list (uniqueItems) goes
+            if rng.random() < 0.3:
+                op["produces"] = ["application/json; charset=utf-8", "application/json;charset=utf-8"]
+            if rng.random() < 0.2:
+                op["consumes"] = ["application/x-www-form-urlencoded", "Application/X-WWW-Form-Urlencoded", "text/plain; format=flowed; charset=utf-8", "text/plain;charset=utf-8;format=flowed"]
     return d if used else None
 
 
